@@ -168,6 +168,7 @@ def BState.setSymTy (s : BState) (sid : SymId) (ty : STy) : BState :=
 
 def BState.error (s : BState) : BState := { s with diags := s.diags + 1 }
 def BState.warning (s : BState) : BState := { s with warns := s.warns + 1 }
+def BState.errorIf (s : BState) (b : Bool) : BState := { s with diags := s.diags + (if b then 1 else 0) }
 
 /-! ### stacks -/
 
@@ -377,7 +378,7 @@ def step (s : BState) : Call → BState
     let (s1, ty) := s.popType
     let s2 := s1.pushNewFrame
     let (s3, _) := s2.addSymbol s2.top name (.var ty) none
-    if ty.selOk then s3 else s3.error     -- "$Quantifier_must_range_over_integer_or_scalar_set" (handle_error inside the callback)
+    s3.errorIf (!ty.selOk)     -- "$Quantifier_must_range_over_integer_or_scalar_set" (handle_error inside the callback)
   | .quantEnd =>
     (s.popFrag.pushFresh).popFrame
   | .dynQuantBegin name =>
